@@ -78,16 +78,8 @@ PlaceText(place, c) ==
     /\ (place = "ncase" => c = "q")      \* the name attribute spelled "Name": one variant
     /\ (Cross \/ Len(g.el["u1"].attrs) = 0)
     /\ Room("u1")
-    /\ LET an == IF c = "q" THEN "aq" ELSE "aU"
-           nn == IF c = "q" THEN "nq" ELSE "nU"
-           tn == IF c = "q" THEN "tq" ELSE "tU"
-       IN g' = CASE place = "aname" -> BAddScalar(g, "u1", an, INT, "i1")
-                 [] place = "ename" -> BSetName(g, "u1", nn)
-                 [] place = "etype" -> BSetType(g, "u1", tn)
-                 [] place = "ncase" -> BAddScalar(BSetName(g, "u1", "nC"), "u1", NextName("u1"), INT, "i1")
-                 [] place = "cname" -> BAddScalarRef(BSetName(g, "u2", nn), "u1", NextName("u1"), RefE("u2"))
-                 [] OTHER -> BAddScalarRef(BSetType(g, "u2", tn), "u1", NextName("u1"), RefE("u2"))
-    /\ act' = [op |-> "place", place |-> place, c |-> c]
+    /\ g' = BPlace(g, place, c, NextName("u1"))
+    /\ act' = [op |-> "place", place |-> place, c |-> c, nn |-> NextName("u1")]
 
 (* ---- export and parse ------------------------------------------------------- *)
 Encode(enc, uni) ==
